@@ -371,8 +371,19 @@ func (api *API) decodeArray(ctx context.Context, b []byte, value reflect.Value, 
 		return deseri.Done()
 	}
 
-	// if it is an array of objects, handle the array like a slice
-	return api.decodeSlice(ctx, b, sliceValue, sliceValueType, ts, opts)
+	// if it is an array of objects, handle the array like a slice:
+	// decode into a fresh addressable slice and copy the elements back into the array
+	sliceValue = reflect.New(sliceValueType).Elem()
+	bytesRead, err := api.decodeSlice(ctx, b, sliceValue, sliceValueType, ts, opts)
+	if err != nil {
+		return bytesRead, err
+	}
+	if sliceValue.Len() != value.Len() {
+		return 0, ierrors.Errorf("can't decode array %s: expected %d elements, got %d", value.Type(), value.Len(), sliceValue.Len())
+	}
+	fillArrayFromSlice(value, sliceValue)
+
+	return bytesRead, nil
 }
 
 func (api *API) decodeSlice(ctx context.Context, b []byte, value reflect.Value,
